@@ -4,10 +4,11 @@
    sync_event); [session] is the specification: what one consumer is owed, written without any reference to
    the other consumers; [wstep] / [wrun] model the write task for value downlinks (Idle / Writing,
    NEEDS_SYNC, the latest-value backpressure).
-   Not modelled here: the map backpressure queue of the write task (the runtime's MapOperationQueue is the
-   subject of C02: Model/MapQueue.v, Props/C02.v),
+   [mwstep] / [mwrun] (Model/DlMapWrite.v) are the same write task over the map backpressure, i.e. over the
+   MapOperationQueue of C02 (Model/MapQueue.v; per-key order and the clear barrier are C02's theorems).
+   Not modelled:
    consumers that fail or drop, KEEP_LINKED hand-over to a new connection, the inactivity time-out votes. *)
-From SwimV Require Import Model.DlRuntime Proofs.DlRuntimeProofs Proofs.DlWriteProofs.
+From SwimV Require Import Model.DlMapWrite Proofs.MapQueueProofs Proofs.DlMapWriteProofs Model.DlRuntime Proofs.DlRuntimeProofs Proofs.DlWriteProofs.
 Open Scope N_scope.
 
 (* however many consumers attach and whenever they do, each is told exactly its own session: linked as soon
@@ -50,6 +51,15 @@ Theorem C07_sync_is_sent_for_a_joiner : forall es1 es2,
   w_pending (wrun (es1 ++ WProducer true :: es2)) = None ->
   (count_sync (w_sent (wrun es1)) < count_sync (w_sent (wrun (es1 ++ WProducer true :: es2))))%nat.
 Proof. exact sync_is_sent_for_a_joiner. Qed.
+
+(* map downlinks: whatever the schedule of commands and completed writes, for every key what the remote lane has
+   been sent, then what is in flight, then what is still queued gives the state all the commands imply; once the
+   socket has taken everything the lane is in exactly that state (only superseded operations were dropped) *)
+Theorem C07_map_commands_converge : forall d h es, h < W -> len es + 2 < W ->
+  let s := mwrun h es in
+  effs d (events (mw_queue s)) (effs d (applied s) None) = effs d (ops_given es) None /\
+  (mw_pending s = None -> effs d (ops_of (mw_sent s)) None = effs d (ops_given es) None).
+Proof. exact map_commands_converge. Qed.
 
 Example C07_nonvacuous :
   (session true 1 true sess0 [RConsumer 0 true; RMessage RLinked; RMessage (REvent 5); RMessage RSynced; RConsumer 1 true;
